@@ -115,6 +115,10 @@ def Marker (m : UInt8) (a : Args) (t : System) : Prop :=
   isOptionByte m = false ∧ m ∉ a.host ∧ m ∉ a.user ∧ m ∉ t.ssh.knownHostsFile ∧
   m ∉ t.ssh.configFile ∧ m ∉ t.ssh.privateKeyPath ∧ (∀ x ∈ t.extra, m ∉ x) ∧ (∀ x ∈ t.override, m ∉ x)
 
+/-- the executable predicate the correspondence harness evaluates is that very domain -/
+theorem marker_iff (m : UInt8) (a : Args) (t : System) : markerB m a t = true ↔ Marker m a t := by
+  simp [markerB, Marker, and_assoc]
+
 theorem buildOpenArgs_marker_free (a : Args) (s : SSHArgs) (extra : List Bytes) (m : UInt8)
     (hfix : isOptionByte m = false) (hh : m ∉ a.host) (hu : m ∉ a.user)
     (hkh : m ∉ s.knownHostsFile) (hcf : m ∉ s.configFile) (hpk : m ∉ s.privateKeyPath)
